@@ -21,15 +21,19 @@ Pieces used by harness/props/c12.py:
 """
 from __future__ import annotations
 
+import collections
 import collections.abc as cabc
 import copy
 import datetime
+import gc
 import json
 import logging
+import shlex
 import shutil
 import sys
 import tempfile
 import threading
+import types
 from pathlib import Path
 
 from . import common
@@ -345,7 +349,9 @@ class SharedIndex:
         frozensets: sharing them is as harmless as sharing atoms)."""
         seen = reach([ctx])
         hits = [i for i in seen if i in self.ref_of]
-        refs = sorted((self.ref_of[i] for i in hits), key=canon)
+        # an object that is immutable all the way down (an atom-only tuple: `copy.deepcopy` hands back the very same
+        # object) is shared like an atom is - unobservable; the model gives every copy cells of its own
+        refs = sorted((self.ref_of[i] for i in hits if not deep_immutable(seen[i])), key=canon)
         labels = sorted((self.label_of[i] for i in hits if not deep_immutable(seen[i])), key=canon)
         frozen = sorted((self.label_of[i] for i in hits if deep_immutable(seen[i])), key=canon)
         return refs, labels, frozen
@@ -407,7 +413,7 @@ ATOMS = [0, 1, 2, 3, 7, 'a', 'b', 'xy', 'q r', True, False, None]
 STEP_KINDS = ['append_in', 'append_ctx', 'add', 'add_in', 'set', 'setf', 'set_ff', 'default', 'merge',
               'contextcopy', 'py_append', 'py_extend', 'py_dictset', 'py_add', 'py_alias', 'py_in',
               'configvars', 'foreach', 'foreach_list', 'foreach_dict', 'foreach_set', 'onerror', 'retry', 'while',
-              'call', 'pype_parent', 'pype_child', 'ticks', 'foreach_probe', 'fail']
+              'call', 'pype_parent', 'pype_child', 'pype_arglist', 'ticks', 'foreach_probe', 'fail']
 
 
 def gen_atom(rng):
@@ -438,6 +444,8 @@ def gen_val(rng, depth=2, kind=None):
         return {f'm{j}': gen_val(rng, depth - 1) for j in range(gen_size(rng))}
     if kind == 'set':
         return {x for x in (gen_hashable(rng) for _ in range(gen_size(rng)))}
+    if kind == 'tuple':      # an immutable container that may hold mutable ones (deepcopy copies it then)
+        return tuple(gen_val(rng, depth - 1) for _ in range(gen_size(rng)))
     raise ValueError(kind)
 
 
@@ -702,7 +710,7 @@ class Emit:
         elif kind == 'add':
             cands = [p for p in sets if len(p) == 1]
             a = gen_hashable(rng)
-            K = rng.choice(cands)[0] if cands and rng.random() < 0.8 else self.fresh_key('s')
+            K = forced.get('K') or (rng.choice(cands)[0] if cands and rng.random() < 0.8 else self.fresh_key('s'))
             self.step('pypyr.steps.add', {'add': {'set': K, 'addMe': a}}, lambda: self.add_step(K, a),
                       instr={'i': 'add', 'K': K, 'a': vw(a)})
         elif kind == 'add_in':        # a set given under `in` (yaml !!set), added to in place
@@ -992,6 +1000,53 @@ class Emit:
                 for k in outs:
                     self.set_key(k, copy.deepcopy(cshadow[k]))
             self.step('pypyr.steps.pype', {'pype': pype}, body)
+        elif kind == 'pype_arglist':
+            # `pypyr.steps.pype` with `pipeArg: <string>`: the string is split (shlex) into a NEW list, which is the
+            # child Pipeline's context_args; the child (a context of its own) has `context_parser: pypyr.parser.list`,
+            # which binds THAT list as argList; the child changes argList IN PLACE (a tool wrapper appending its
+            # default flags, peeling off a sub-command); the same pipeArg string is used again - by a later pype of
+            # this run, by the next run, on another thread: every use must see the args the string spells
+            if self.depth > 0:
+                return self.emit('set')
+            child = self.gen.new_child()
+            self.gen.pipes[child]['parser'] = 'pypyr.parser.list'
+            cr = self.gen.new_child_run()
+            if self.gen.pipeargs and rng.random() < 0.5 and 'toks' not in forced:
+                toks = list(rng.choice(self.gen.pipeargs))       # the same string as an earlier pype of this case
+            else:
+                toks = list(forced.get('toks') or [rng.choice(['lint', 'src', 'k=v', 'x y', '--strict', 'a', "it's"])
+                                                   for _ in range(rng.randint(1, 3))])
+                self.gen.pipeargs.append(list(toks))
+            pype = {'name': child, 'pipeArg': shlex.join(toks)}
+            W = gen_atom(rng) if rng.random() < 0.7 else gen_val(rng, 1, 'list')
+
+            def body():
+                cshadow = {}
+                self.unit({'i': 'ctxStart', 'v': vw(cshadow)}, r=cr)
+                self.op({'o': 'start', 'v': wire(cshadow)}, r=cr)
+                sub = Emit(self.gen, child, cr, cshadow, self.prog, self.depth + 1)
+                sub.unit({'i': 'parserList', 'args': list(toks)})
+                sub.set_key('argList', list(toks))
+                how = rng.choice(['append', 'py', 'py'])
+                if how == 'append':
+                    sub.step('pypyr.steps.append', {'append': {'list': 'argList', 'addMe': W}},
+                             lambda: sub.append_step('argList', W, False),
+                             instr={'i': 'append', 'K': 'argList', 'W': vw(W), 'unpack': False})
+                else:
+                    sub.step('pypyr.steps.py', {'py': f'argList.append({py_lit(W)})'}, lambda: sub.append(['argList'], W),
+                             instr=py_unit(F_append(['argList'], W)))
+                sub.emit_many(rng.randint(0, 2))
+                outs = ['argList'] if 'argList' in cshadow and rng.random() < 0.8 else []
+                more = [k for k in cshadow if isinstance(k, str) and k != 'argList']
+                outs += rng.sample(more, min(len(more), rng.randint(0, 1)))
+                if outs:
+                    pype['out'] = outs
+                    if isinstance(self.shadow.get('pype'), dict):
+                        self.shadow['pype']['out'] = list(outs)
+                    self.unit({'i': 'setf', 'pairs': [[k, vw(cshadow[k])] for k in outs]})
+                    for k in outs:
+                        self.set_key(k, copy.deepcopy(cshadow[k]))
+            self.step('pypyr.steps.pype', {'pype': pype}, body)
         elif kind == 'ticks':
             # hand-off points INSIDE the formatting of a large mapping: every value of `contextSetf` is a `!py`
             # expression calling vobs.tick (a no-op without a hook), which a thread scheduler parks at
@@ -1023,6 +1078,8 @@ class Emit:
         """A value to merge / default into the context: new keys, existing keys, nested keys."""
         rng = self.rng
         out = {}
+        used = set()       # one step does not address ONE object under two keys (aliases made by contextcopy / :ff /
+        #                    py): the model reads the context once, when the step starts (ASSUMPTIONS)
         for _ in range(rng.randint(1, 3)):
             c = rng.random()
             if c < 0.4 or not tops:
@@ -1030,6 +1087,11 @@ class Emit:
             elif c < 0.8:
                 k = rng.choice(tops)[0]
                 cur = self.shadow[k]
+                if is_container(cur) and k not in out:
+                    if id(cur) in used:
+                        out[self.fresh_key('k')] = gen_val(rng, 2)
+                        continue
+                    used.add(id(cur))
                 if isinstance(cur, dict):
                     out[k] = {rng.choice([kk for kk in cur if isinstance(kk, str)] or ['m0']) if rng.random() < 0.5
                               else self.fresh_key('m'): gen_val(rng, 1) for _ in range(rng.randint(1, 2))}
@@ -1038,7 +1100,14 @@ class Emit:
                 else:
                     out[k] = gen_val(rng, 1)
             else:
-                out[rng.choice(tops)[0]] = gen_val(rng, 2)
+                k = rng.choice(tops)[0]
+                cur = self.shadow[k]
+                if is_container(cur) and k not in out:
+                    if id(cur) in used:
+                        k = self.fresh_key('k')
+                    else:
+                        used.add(id(cur))
+                out[k] = gen_val(rng, 2)
         return out
 
     def merge_ops(self, path, cur, add):
@@ -1084,6 +1153,7 @@ class ProgGen:
         self.nchild = 0
         self.nchildrun = 0
         self.ngroup = 0
+        self.pipeargs = []         # the pipeArg token lists the pype steps of this case have used
         self.kinds = []
         self.failed = False        # the run being generated has raised: nothing more of it is executed
         self.config = config if config is not None else {'vars': {}, 'shortcuts': {}}
@@ -1242,6 +1312,20 @@ class Sandbox:
         self.last_live = None
         self.reused = 0
         self.refreshed = 0
+        # every Context a pipeline was run on - the top-level runs' and those `pypyr.steps.pype` makes for a child with
+        # a context of its own (a run like any other): recorded from outside at Pipeline.load_and_run_pipeline
+        self.run_contexts = []
+        import pypyr.pipeline as pl
+        self._pl = pl
+        self._orig_larp = getattr(pl.Pipeline, 'load_and_run_pipeline', None)
+        if self._orig_larp is not None:
+            sb, orig = self, self._orig_larp
+
+            def load_and_run_pipeline(pipeline, context, *a, **kw):
+                if not any(c is context for c in sb.run_contexts[-50:]):
+                    sb.run_contexts.append(context)
+                return orig(pipeline, context, *a, **kw)
+            pl.Pipeline.load_and_run_pipeline = load_and_run_pipeline
 
     def install(self, pipes, cfg, probes=False):
         """Write the pipelines of one case (replacing the previous case's), set config, empty the caches."""
@@ -1262,13 +1346,29 @@ class Sandbox:
         self.admin.clear_all()
         self.vobs.HOOK = None
         self.objs = {}
-        vars_ = unwire(wire(cfg.get('vars') or {}))
+        self.run_contexts = []
+        raw = cfg.get('vars') or {}
+        # vars that hold sets / tuples travel in wire form inside a (JSON-able) case
+        vars_ = unwire(raw['__wire__']) if isinstance(raw, dict) and '__wire__' in raw else unwire(wire(raw))
         shortcuts = {}
         for name, sc in (cfg.get('shortcuts') or {}).items():
             sc = unwire(wire(sc))
             sc['pipeline_name'] = str(self.dir / sc['pipeline_name'])
             shortcuts[name] = sc
         self.config.vars, self.config.shortcuts = vars_, shortcuts
+        if cfg.get('via') == 'yaml' and vars_:
+            # the vars come out of a REAL config file: ruamel round-trip objects (CommentedMap / CommentedSeq /
+            # CommentedSet for `!!set`), merged in by Config.handle_path like `config.init()` does per file
+            f = self.root / f'pypyr-config-{self.n}.yaml'
+            f.write_text('vars: ' + yv(vars_) + '\n')
+            self.config.vars = {}
+            loaded = getattr(self.config, '_config_loaded_paths', None)
+            n0 = len(loaded) if isinstance(loaded, list) else None
+            self.config.handle_path(f)
+            if n0 is not None:
+                del loaded[n0:]
+            if canon(norm(wire(self.config.vars))) != canon(norm(wire(vars_))):
+                raise common.Infra('the config file the harness wrote does not load as the vars it spells')
         return self.dir
 
     def ensure_vobs(self):
@@ -1371,6 +1471,8 @@ class Sandbox:
             return {'err': common.exc_name(e), 'msg': str(e).replace(str(self.dir), '<dir>')}, None
 
     def close(self):
+        if self._orig_larp is not None:
+            self._pl.Pipeline.load_and_run_pipeline = self._orig_larp
         path, known, vars_, shortcuts, disabled = self._saved
         self.admin.clear_all()
         sys.path[:] = path
@@ -1381,6 +1483,106 @@ class Sandbox:
         logging.disable(disabled)
         sys.modules.pop('vobs', None)
         shutil.rmtree(self.root, ignore_errors=True)
+
+
+# ---------------------------------------------------------------------------------------------
+# process-global state of the package under test (module-level caches, memo tables)
+# ---------------------------------------------------------------------------------------------
+
+_SKIP_TYPES = (types.ModuleType, type, types.CodeType, types.FrameType, types.BuiltinFunctionType,
+               types.MethodDescriptorType, types.WrapperDescriptorType, types.GetSetDescriptorType,
+               types.MemberDescriptorType, logging.Logger, logging.Handler, threading.Thread)
+_LOCK_TYPES = (type(threading.Lock()), type(threading.RLock()))
+
+
+def _is_memo_wrapper(o):
+    return callable(o) and hasattr(o, 'cache_info') and hasattr(o, '__wrapped__')
+
+
+def global_state(prefix='pypyr'):
+    """id -> (object, how it is reached) for everything MUTABLE that the package's process-global state keeps alive:
+    module-level names of every loaded `pypyr*` module, class attributes of its classes, the memo tables of
+    functools caches (`cache_info`), closures / defaults / attributes of its functions, and whatever those objects
+    hold (containers: their members; instances of the package's classes: everything the garbage collector sees them
+    refer to).  Modules, classes, code, loggers, locks and instances of foreign classes are not entered."""
+    seen, out, todo = set(), {}, []
+    for name, mod in list(sys.modules.items()):
+        if mod is None or not (name == prefix or name.startswith(prefix + '.')):
+            continue
+        for attr, val in list(vars(mod).items()):
+            if attr.startswith('__') and attr.endswith('__'):
+                continue
+            if isinstance(val, type):
+                if getattr(val, '__module__', '') == name:
+                    for a, v in list(vars(val).items()):
+                        if not (a.startswith('__') and a.endswith('__')) and not isinstance(v, _SKIP_TYPES):
+                            todo.append((v, f'{name}.{val.__name__}.{a}', 0))
+                continue
+            if isinstance(val, types.FunctionType) and getattr(val, '__module__', None) != name:
+                continue        # a function another module defines (imported here): that module's business
+            todo.append((val, f'{name}.{attr}', 0))
+    while todo:
+        o, how, depth = todo.pop()
+        if id(o) in seen or is_atom(o) or isinstance(o, _SKIP_TYPES) or isinstance(o, _LOCK_TYPES) or depth > 40:
+            continue
+        seen.add(id(o))
+        if len(seen) > 200000:
+            break
+        nxt = []
+        if _is_memo_wrapper(o):
+            nxt = [(r, how + ' (functools cache)') for r in gc.get_referents(o) if not isinstance(r, (type, types.FunctionType))]
+        elif isinstance(o, types.FunctionType):
+            for c in (o.__closure__ or ()):
+                try:
+                    nxt.append((c.cell_contents, how + ' (closure)'))
+                except ValueError:
+                    pass
+            nxt += [(d, how + ' (default)') for d in (o.__defaults__ or ())]
+            nxt += [(v, how + f'.{k}') for k, v in (getattr(o, '__dict__', None) or {}).items()]
+        elif isinstance(o, types.MethodType):
+            nxt = [(o.__self__, how)]
+        elif isinstance(o, (cabc.Mapping, list, tuple, cabc.Set, collections.deque)):
+            if not deep_immutable(o):
+                out[id(o)] = (o, how)
+            try:
+                if isinstance(o, cabc.Mapping):
+                    for k, v in list(o.items()):
+                        nxt.append((k, how + ' key'))
+                        nxt.append((v, how + f'[{k!r:.30}]'))
+                else:
+                    nxt = [(v, how + '[…]') for v in list(o)]
+            except Exception:      # noqa: BLE001 - an odd container: take what the collector sees
+                nxt = [(r, how) for r in gc.get_referents(o)]
+        elif isinstance(o, (bytearray,)):
+            out[id(o)] = (o, how)
+        elif (type(o).__module__ or '').split('.')[0] == prefix or type(o).__name__ in ('partial', 'cell'):
+            nxt = [(r, how + f' <{type(o).__name__}>') for r in gc.get_referents(o) if not isinstance(r, type)]
+        for v, h in nxt:
+            todo.append((v, h, depth + 1))
+    return out
+
+
+def run_objects(ctx):
+    """The MUTABLE objects of a run: what its context can reach as data (members of containers)."""
+    return {i: o for i, o in reach([ctx]).items()
+            if o is not ctx and not deep_immutable(o) and (is_container(o) or isinstance(o, bytearray))}
+
+
+def held_by_process(ctxs):
+    """[(label of the run, description)] for every finished run one of whose mutable objects the package's
+    process-global state holds on to (so that a later run can be handed it)."""
+    g = global_state()
+    out = []
+    done = set()
+    for label, ctx in ctxs:
+        if ctx is None or id(ctx) in done:
+            continue
+        done.add(id(ctx))
+        hits = [(o, g[i][1]) for i, o in run_objects(ctx).items() if i in g]
+        if hits:
+            o, how = hits[0]
+            out.append((label, f'{type(o).__name__} {json.dumps(norm(wire(o)))[:80]} is held by {how}'))
+    return out
 
 
 class CwdControl:
